@@ -11,6 +11,8 @@ from . import carving_space, disc_space
 PROP = "C04"
 BIG_SCALE = [1.0, 202300.0]  # boundaries that differ only beyond 4 significant digits
 BIG_SCALE2 = [0.1, 1.7e9]  # ... beyond 10 significant digits (timestamps a tenth of a second apart)
+TINY_SCALE = [1e-11, 0.0]  # magnitudes far below any absolute tolerance (capacitances in farad, wavelengths in metres)
+TINY_STEP = [2.0**-33, 1.0]  # values 1 + k * 1.2e-10: neighbours closer than 1e-9 at an ordinary magnitude
 THIRDS = [1.0 / 3.0, 0.0]  # boundaries with 16 significant decimals (0.333..., 0.666...)
 
 
@@ -150,9 +152,9 @@ def enumerate_cases(tier, seed):
     tabs, tr = space.construct(counts, 2, 5 if tier == "quick" else 6, ordered=True)
     transitions += tr
     for cells in tabs:
-        for cls in ("Discretizer", "QuantitativeDiscretizer"):
+        for cls in ("Discretizer", "QuantitativeDiscretizer", "ContinuousDiscretizer"):  # (the last one never transforms while fitting)
             for mf in (0.1,) if tier == "quick" else (0.1, 0.05, 0.2):
-                for sc in (BIG_SCALE, BIG_SCALE2):
+                for sc in (BIG_SCALE, BIG_SCALE2, TINY_SCALE, TINY_STEP):
                     cases.append({"type": "disc", "cls": cls, "kind": "QNT", "cells": [list(c) for c in cells], "nan": None, "min_freq": mf, "target": "binary", "seed": seed, "companion": None, "scale": sc})
     # B. carvers: all four (output_dtype, dropna) combinations
     for carver in ("binary", "continuous"):
